@@ -101,6 +101,7 @@ type KnownFinding struct {
 	Function  string `json:"function"`
 	Construct string `json:"construct"`
 	What      string `json:"what"`
+	Short     string `json:"short,omitempty"`
 	Status    string `json:"status"` // "known" | "fixed"
 	Commit    string `json:"commit,omitempty"`
 }
@@ -142,13 +143,14 @@ func matchKnown(kf []KnownFinding, prop string, o Obligation) *KnownFinding {
 // ---- evidence ----------------------------------------------------------------
 
 type runResult struct {
-	ID         string
-	Tier       string
-	Seed       int64
-	Checks     []*Check // one per build configuration
-	Start      time.Time
-	Extra      map[string]interface{}
-	LoadErrors []string
+	ID          string
+	Tier        string
+	Seed        int64
+	Checks      []*Check // one per build configuration
+	Start       time.Time
+	Extra       map[string]interface{}
+	LoadErrors  []string
+	LoadSeconds float64
 }
 
 func (r *runResult) finish() int {
@@ -185,7 +187,11 @@ func (r *runResult) finish() int {
 					key := k.Rule + "|" + k.Function + "|" + k.Construct
 					if !seenKF[key] {
 						seenKF[key] = true
-						fmt.Printf("KNOWN-FINDING: property=%s %s [%s %s: %s]\n", r.ID, k.What, k.Rule, k.Function, k.Construct)
+						what := k.Short
+						if what == "" {
+							what = k.What
+						}
+						fmt.Printf("KNOWN-FINDING: property=%s %s [%s %s: %s]\n", r.ID, what, k.Rule, k.Function, k.Construct)
 					}
 				} else {
 					viol = append(viol, o)
@@ -270,7 +276,7 @@ func (r *runResult) finish() int {
 		"level":       "other",
 		"coverage":    cov,
 		"assumptions": assumptions,
-		"wall_s":      time.Since(r.Start).Seconds(),
+		"wall_s":      time.Since(r.Start).Seconds() + r.LoadSeconds,
 		"violations":  len(viol) + len(undec),
 	}
 	evDir := filepath.Join(verifDir(), "evidence")
@@ -281,7 +287,7 @@ func (r *runResult) finish() int {
 		bad++
 	}
 	fmt.Printf("%s: %d obligations, %d ok, %d violated, %d undecided, %d known (rules=%d funcs=%d configs=%d, %.1fs)\n",
-		r.ID, total, len(okc), len(viol), len(undec), len(knownHits), len(rules), len(fl), len(configs), time.Since(r.Start).Seconds())
+		r.ID, total, len(okc), len(viol), len(undec), len(knownHits), len(rules), len(fl), len(configs), time.Since(r.Start).Seconds()+r.LoadSeconds)
 	if bad > 0 {
 		rpDir := filepath.Join(verifDir(), "replay")
 		os.MkdirAll(rpDir, 0o755)
